@@ -9,9 +9,12 @@ TEXT = {
   "level": "Theorems acts_wellFormed (for every call from every world and any server behaviour: no network callback while the state lock is held, no re-entry, the update lock is only "
            "tried with the state lock free, everything released), acts_sectionsAtomic (the action after every acquisition is the release), progress (in the global transition system of any "
            "number of threads, if a thread is unfinished some thread is enabled: no schedule deadlocks), busy_update_inert. The model's action trace of every call is compared, action by "
-           "action, with the trace logged by the lock hooks and network callbacks of the real library; the depth counter is read inside every network callback.",
+           "action, with the trace logged by the lock hooks and network callbacks of the real library; the depth counter is read inside every network callback. "
+           "Runtime half, on the real library in every run: the hung-update scenario (an update parked inside its event / patch-check / download callback while every other exported call is timed "
+           "from another thread, limit 10 s, and a second update must answer 'already in progress'); the error-path scan (every mutating file-system call of sampled launches fails with EIO in "
+           "turn; a call that then never returns is a deadlock); a watchdog in the driver turns any call that never returns, in any campaign, into a shrunk replay.",
   "design_ref": "DESIGN.md section 4, C12",
-  "note": "partial: 'promptly' is runtime (a dedicated hung-download scenario checks that queries and a second update return while the download hangs); Mutex semantics trusted.",
+  "note": "partial: latency ('promptly') and the error paths after failed file-system operations are outside the model and are exhibited at run time by the two scenarios above; Mutex semantics trusted.",
   "technique": "Lean 4 theorems over lock/network action traces + trace-level correspondence with the instrumented library",
  },
  "C15": {
